@@ -145,6 +145,11 @@ package crypto
 // ---- poison records (C15) ---------------------------------------------------------------------------------------
 // The callbacks run iff callbacks are configured and the container decrypts under the poison keys; they run before
 // anything is returned, and the value handed back is the container with the callbacks' own error.
+//@ package github.com/cossacklabs/acra/decryptor/base
+//@ assume func (s PoisonRecordCallbackStorage) HasCallbacks() (ok bool)
+//@   pure
+//@   modifies nothing
+//@ package github.com/cossacklabs/acra/crypto
 //@ func (recognizer PoisonRecordDetector) OnCryptoEnvelope(ctx context.Context, container []byte) (out []byte, err error)
 //@   props C15
 //@   ensures alarm-raised: ret(PoisonRecordCallbackStorage.HasCallbacks#0)[0] && called(DataProcessor.Process) && ret(DataProcessor.Process)[1] == nil ==> called(PoisonRecordCallbackStorage.Call) && err == ret(PoisonRecordCallbackStorage.Call)[0]
